@@ -9,6 +9,7 @@ drivers/doe_driver.py (DOEDriver.run / _run_case / _parallel_generator).  Decide
                 variable's own level count; one row per element (offset discipline)
 * C23.index     case assembly: design column `off` selects from table row `off` (same offset),
                 offset advances by the variable's size, is reset per case
+* C23.dvlevels  level lookup of a variable: int for all; dict -> [name], else ['default'], else default
 * C23.levels    the level list handed to the design function is built with the same per-variable
                 level function the table uses, repeated size times, in design-variable order
 * C23.design    Plackett-Burman / Box-Behnken codings are mapped one-to-one onto 0..levels-1
@@ -37,8 +38,10 @@ describe('C23',
          'reads are not loop-carried; the level table of the pyDOE generators is linspace over the '
          "variable's own lower/upper with the variable's own level count and one row per element; a case "
          'is assembled with the same offset into the design row and the level table, advancing by the '
-         'variable size and reset per case; the level list given to fullfact/gsd uses the same level '
-         'function; Plackett-Burman (-1/+1) and Box-Behnken (-1/0/+1) codings are mapped bijectively and '
+         'variable size and reset per case, element loops cover range(size of the variable), every variable '
+         'is appended once and every design row emitted once; the level lookup of a variable (int / dict '
+         'name / dict default / module default) is evaluated on its 5 scenarios; the level list given to '
+         'fullfact/gsd uses the same level function; Plackett-Burman (-1/+1) and Box-Behnken (-1/0/+1) codings are mapped bijectively and '
          'monotonically onto 0..levels-1 (decided by evaluating the small coding expression on the code '
          'points); the Latin-hypercube map equals lower + s*(upper-lower) as a polynomial and uses its own '
          'design columns; uniform draws use the own bounds; seeding dominates the first draw under '
@@ -392,6 +395,41 @@ def check_offset(C, out, fn, acc, kname, use_stmt, dvloop, kloop, what, keyp, si
     return True
 
 
+def covers_elements(C, out, fn, kloop, dvloop, what, keyp):
+    """The element loop runs over range(<size of the current design variable>)."""
+    a = kloop.iter.args[0]
+    kh = C.at(kloop)
+    body = set(C.g.body_nodes(dvloop))
+    meta, key = dvloop.target.elts[1].id, dvloop.target.elts[0].id
+
+    def per_dv(nm):
+        ds = C.rd.defs(kh, nm)
+        return bool(ds) and ds <= body and all(
+            d.kind == 'stmt' and isinstance(d.ast, ast.Assign) and (astx.names(d.ast.value) & {meta, key})
+            for d in ds)
+    if isinstance(a, ast.Name):
+        if per_dv(a.id):
+            return True
+        ds = C.rd.defs(kh, a.id)
+        if ds and not (ds & body):
+            out.bad(fn, kloop, f'{what}: the element loop runs over `range({a.id})`, but `{a.id}` is not the size of the '
+                    'current design variable (it is not recomputed inside the design-variable loop): elements are '
+                    'left out or foreign rows are overwritten', key=f'{keyp}-elements')
+            return False
+        out.unsure(fn, kloop, f'{what}: cannot relate `{a.id}` to the size of the design variable')
+        return False
+    if isinstance(a, ast.BinOp) and isinstance(a.op, (ast.Add, ast.Sub)):
+        nm, c = (a.left, a.right) if isinstance(a.left, ast.Name) else (a.right, a.left)
+        if isinstance(nm, ast.Name) and isinstance(c, ast.Constant) and c.value and per_dv(nm.id):
+            out.bad(fn, kloop, f'{what}: the element loop runs over `range({astx.src(a)})` instead of all `{nm.id}` '
+                    'elements of the variable: the last element keeps an uninitialised / stale value (or an index '
+                    'error occurs)', key=f'{keyp}-elements')
+            return False
+    out.unsure(fn, kloop, f'{what}: element range `{astx.src(a)}` not recognised')
+    return False
+
+
+
 # =========================================================================== pyDOE generators
 PYDOE = [(DG, '_pyDOE_Generator', '__call__'), (SP, '_pyDOE_AnalysisGenerator', '_setup')]
 LEVEL_FUNCS = ('_get_dv_levels', '_get_levels')
@@ -565,7 +603,7 @@ def table(repo, out):
             continue
         if role[0] != 'dv':
             out.bad(P.fn, P.tab, f'the number of levels of the table row is `{astx.src(src_e)}`, not the level count '
-                    f'of this design variable (self.{LEVEL_FUNCS[0]}({B.key})): the design indexes levels that the '
+                    f'of this design variable (its level lookup for `{B.key}`): the design indexes levels that the '
                     'table does not hold (NaN values) or the requested levels are not the ones enumerated',
                     key='table-levels')
             continue
@@ -598,7 +636,8 @@ def table(repo, out):
             continue
         if not check_offset(C, out, P.fn, acc, kname, P.tab, P.t_dv, P.t_k, 'level table', 'table'):
             continue
-        # element loop covers the size of the variable: range(S), S a size of this variable
+        if P.t_k is not None and not covers_elements(C, out, P.fn, P.t_k, P.t_dv, 'level table', 'table'):
+            continue
         out.ok(P.fn, P.tab, f'row `{astx.src(off_e)}` <- linspace({B.meta}[lower][{kv}], {B.meta}[upper][{kv}], '
                f'self.{role[1]}({B.key})); one row per element')
 
@@ -665,7 +704,8 @@ def index(repo, out):
             if kname is not None and kname != kv:
                 out.unsure(P.fn, st, 'offset uses the variable of another element loop')
                 continue
-            # the case loop iterates the integer design
+            if not covers_elements(C, out, P.fn, kloop, dvloop, 'case assembly', 'index'):
+                continue
             if not check_offset(C, out, P.fn, acc, kname, st, dvloop, kloop, 'case assembly', 'index'):
                 continue
             # the store goes to element k of the value
@@ -678,6 +718,21 @@ def index(repo, out):
                 continue
             if not isinstance(tgt.value, ast.Name):
                 out.unsure(P.fn, st, 'element value is not stored into a local array')
+                continue
+            vdef = C.rd.value(at, tgt.value.id)
+            if np_call(vdef, 'empty', 'zeros', 'ones', 'full') and vdef.args:
+                vd_at = next(iter(C.rd.defs(at, tgt.value.id)))
+                sv = same_value(C, vdef.args[0], vd_at, kloop.iter.args[0], C.at(kloop))
+                if sv is not True:
+                    if sv is False or isinstance(vdef.args[0], (ast.BinOp, ast.Constant)):
+                        out.bad(P.fn, vd_at.ast, f'the value array has `{astx.src(vdef.args[0])}` elements but '
+                                f'`{astx.src(kloop.iter.args[0])}` elements are filled: trailing elements stay '
+                                'uninitialised (np.empty) or an index error occurs', key='index-elements')
+                    else:
+                        out.unsure(P.fn, vd_at.ast, 'cannot relate the length of the value array to the element loop')
+                    continue
+            else:
+                out.unsure(P.fn, st, f'definition of `{tgt.value.id}` is not a fresh array per variable')
                 continue
             if not emit_check(C, out, P.fn, tgt.value.id, dvloop, caseloop, dvloop.target.elts[0].id, 'index',
                               'case assembly'):
@@ -1939,6 +1994,171 @@ def partition(repo, out):
     out.ok(fp, guards[0], f'case i is run by colour i % ({astx.src(ncol_p)}), the number of colours of the split')
 
 
+# =========================================================================== per-variable level lookup
+class _Raise(Exception):
+    pass
+
+
+def _lv_eval(e, env, sc, pname):
+    """Evaluate an expression of the level-lookup function in scenario sc = (is_int, has_name, has_default)."""
+    is_int, has_name, has_default = sc
+    if isinstance(e, ast.Constant):
+        return ('const', e.value)
+    if isinstance(e, ast.Name):
+        if e.id in env:
+            return env[e.id]
+        if e.id == pname:
+            return ('name',)
+        return ('global', e.id)
+    if astx.path(e) == 'self._levels':
+        return ('LEVELS',)
+
+    def has(k):
+        if k == ('name',):
+            return has_name
+        if k == ('const', 'default'):
+            return has_default
+        raise _NoEval(f'key {k}')
+
+    def item(k):
+        return ('item', 'name' if k == ('name',) else 'default')
+    if isinstance(e, ast.Call):
+        cn = astx.call_name(e)
+        if cn == 'isinstance' and len(e.args) == 2:
+            x = _lv_eval(e.args[0], env, sc, pname)
+            ty = astx.path(e.args[1])
+            if x == ('LEVELS',) and ty in ('int', 'dict'):
+                return ('bool', is_int if ty == 'int' else not is_int)
+            raise _NoEval(astx.src(e))
+        if isinstance(e.func, ast.Attribute) and e.func.attr == 'get' and 1 <= len(e.args) <= 2 and not e.keywords:
+            x = _lv_eval(e.func.value, env, sc, pname)
+            if x != ('LEVELS',):
+                raise _NoEval(astx.src(e))
+            if is_int:
+                raise _Raise()
+            k = _lv_eval(e.args[0], env, sc, pname)
+            if has(k):
+                return item(k)
+            if len(e.args) == 2:
+                return _lv_eval(e.args[1], env, sc, pname)
+            return ('const', None)
+        raise _NoEval(astx.src(e))
+    if isinstance(e, ast.Subscript):
+        x = _lv_eval(e.value, env, sc, pname)
+        if x != ('LEVELS',):
+            raise _NoEval(astx.src(e))
+        if is_int:
+            raise _Raise()
+        k = _lv_eval(e.slice, env, sc, pname)
+        if has(k):
+            return item(k)
+        raise _Raise()
+    if isinstance(e, ast.Compare) and len(e.ops) == 1 and isinstance(e.ops[0], (ast.In, ast.NotIn)):
+        x = _lv_eval(e.comparators[0], env, sc, pname)
+        if x != ('LEVELS',):
+            raise _NoEval(astx.src(e))
+        if is_int:
+            raise _Raise()
+        v = has(_lv_eval(e.left, env, sc, pname))
+        return ('bool', v if isinstance(e.ops[0], ast.In) else not v)
+    if isinstance(e, ast.UnaryOp) and isinstance(e.op, ast.Not):
+        x = _lv_eval(e.operand, env, sc, pname)
+        if x[0] != 'bool':
+            raise _NoEval(astx.src(e))
+        return ('bool', not x[1])
+    if isinstance(e, ast.BoolOp):
+        vals = []
+        for v in e.values:
+            x = _lv_eval(v, env, sc, pname)
+            if x[0] != 'bool':
+                raise _NoEval(astx.src(e))
+            vals.append(x[1])
+            if isinstance(e.op, ast.And) and not x[1]:
+                return ('bool', False)
+            if isinstance(e.op, ast.Or) and x[1]:
+                return ('bool', True)
+        return ('bool', all(vals) if isinstance(e.op, ast.And) else any(vals))
+    if isinstance(e, ast.IfExp):
+        t = _lv_eval(e.test, env, sc, pname)
+        if t[0] != 'bool':
+            raise _NoEval(astx.src(e))
+        return _lv_eval(e.body if t[1] else e.orelse, env, sc, pname)
+    raise _NoEval(astx.src(e))
+
+
+def _lv_run(body, env, sc, pname):
+    for st in body:
+        if isinstance(st, ast.Assign) and len(st.targets) == 1 and isinstance(st.targets[0], ast.Name):
+            env[st.targets[0].id] = _lv_eval(st.value, env, sc, pname)
+        elif isinstance(st, ast.If):
+            t = _lv_eval(st.test, env, sc, pname)
+            if t[0] != 'bool':
+                raise _NoEval(astx.src(st))
+            r = _lv_run(st.body if t[1] else st.orelse, env, sc, pname)
+            if r is not None:
+                return r
+        elif isinstance(st, ast.Return):
+            if st.value is None:
+                return ('const', None)
+            return _lv_eval(st.value, env, sc, pname)
+        elif isinstance(st, ast.Raise):
+            raise _Raise()
+        elif isinstance(st, ast.Pass):
+            continue
+        else:
+            raise _NoEval(astx.src(st))
+    return None
+
+
+@rule('C23.dvlevels', floor=2)
+def dvlevels(repo, out):
+    """Level lookup: an int applies to every variable; a dict gives levels[name], else levels['default'], else the module default."""
+    for rel, cls, meth in PYDOE:
+        fn = None
+        for nm in LEVEL_FUNCS:
+            fn = fn or repo.try_func(rel, f'{cls}.{nm}')
+        if fn is None:
+            raise AnalysisError(f'{rel}:{cls}: level lookup function vanished')
+        params = [a.arg for a in fn.node.args.args]
+        if len(params) != 2:
+            out.unsure(fn, fn.node, 'signature not (self, name)')
+            continue
+        pname = params[1]
+        want = {(True, False, False): ('LEVELS',), (False, True, True): ('item', 'name'),
+                (False, True, False): ('item', 'name'), (False, False, True): ('item', 'default')}
+        scen = list(want) + [(False, False, False)]
+        desc = {(True, False, False): 'levels is an int', (False, True, True): 'dict with the name and "default"',
+                (False, True, False): 'dict with the name only', (False, False, True): 'dict with "default" only',
+                (False, False, False): 'dict with neither'}
+        bad = None
+        try:
+            for sc in scen:
+                try:
+                    r = _lv_run(astx.strip_doc(fn.node.body), {}, sc, pname)
+                except _Raise:
+                    r = ('raise',)
+                if r is None:
+                    r = ('const', None)
+                if sc in want:
+                    if r != want[sc]:
+                        bad = (sc, r, want[sc])
+                        break
+                elif r[0] not in ('const', 'global') or r == ('const', None):
+                    bad = (sc, r, ('module default',))
+                    break
+        except _NoEval as ex:
+            out.unsure(fn, fn.node, f'level lookup not evaluable: {ex}')
+            continue
+        if bad:
+            sc, r, w = bad
+            out.bad(fn, fn.node, f'when {desc[sc]} the level count of a variable is {" ".join(map(str, r))}, expected '
+                    f'{" ".join(map(str, w))}: the design does not enumerate the levels the user requested for that '
+                    'variable', key='dvlevels-lookup')
+        else:
+            out.ok(fn, fn.node, 'int -> self._levels; dict -> [name], else ["default"], else the module default '
+                   '(5 scenarios evaluated)')
+
+
 # =========================================================================== self-test (part 1: pyDOE)
 _TAB_DG = ("            for k in range(size):\n"
            "                lower = meta['lower']\n"
@@ -2043,7 +2263,8 @@ selftest(
     Mutant('lhs-col-not-reset', DG, "        for row in doe:\n            retval = []\n            col = 0\n",
            "        col = 0\n        for row in doe:\n            retval = []\n", 'C23.lhs'),
     Mutant('lhs-col-before-slice', SP, "                    size = _get_size(name, meta)\n                    sample = row[col:col + size]\n",
-           "                    size = _get_size(name, meta)\n                    col += size\n                    sample = row[col:col + size]\n", 'C23.lhs'),
+           "                    size = _get_size(name, meta)\n                    col += size\n                    sample = row[col:col + size]\n", 'C23.lhs',
+           also=[(SP, "                    retval.append(val)\n                    col += size\n", "                    retval.append(val)\n")]),
     Mutant('lhs-columns-per-variable', DG, "size = sum([meta['size'] for meta in design_vars.values()])",
            "size = len(design_vars)", 'C23.lhs'),
     Mutant('lhs-yield-per-variable', DG, "                col += size\n\n            yield retval\n",
@@ -2132,4 +2353,30 @@ selftest(
          "        nproc = self.options['procs_per_model']\n\n        for i, case in enumerate(self.options['generator'](design_vars, model)):\n            if self._color == i % (self._problem_comm.size // nproc):"),
     Twin('twin-run-alias', DD, "        for case in case_gen(self._designvars, self._problem().model):",
          "        model = self._problem().model\n        for case in case_gen(dv_meta, model):"),
+)
+
+
+selftest(
+    'C23',
+    Mutant('dvlevels-default-first', DG, 'return levels.get(name, levels.get("default", _LEVELS))',
+           'return levels.get("default", levels.get(name, _LEVELS))', 'C23.dvlevels'),
+    Mutant('dvlevels-no-default', SP, 'return levels.get(name, levels.get("default", _LEVELS))',
+           'return levels.get(name, _LEVELS)', 'C23.dvlevels'),
+    Mutant('dvlevels-ignore-name', DG, 'return levels.get(name, levels.get("default", _LEVELS))',
+           'return levels.get("default", _LEVELS)', 'C23.dvlevels'),
+    Twin('twin-dvlevels-explicit', DG, '            return levels.get(name, levels.get("default", _LEVELS))',
+         '            if name in levels:\n                return levels[name]\n            return levels.get("default", _LEVELS)'),
+    Twin('twin-dvlevels-no-alias', SP, '        levels = self._levels\n        if isinstance(levels, int):\n            return levels\n        else:\n            return levels.get(name, levels.get("default", _LEVELS))',
+         '        if not isinstance(self._levels, int):\n            return self._levels.get(name, self._levels.get("default", _LEVELS))\n        return self._levels'),
+)
+
+
+selftest(
+    'C23',
+    Mutant('index-range-off-by-one', DG, "                for k in range(size_i):\n", "                for k in range(size_i - 1):\n", 'C23.index'),
+    Mutant('index-value-array-short', SP, "                val = np.empty(size_i)\n", "                val = np.empty(size_i + 1)\n", 'C23.index'),
+    Mutant('table-range-stale-size', DG, "        for name, meta in design_vars.items():\n            size = _get_size(meta)\n\n            for k in range(size):",
+           "        for name, meta in design_vars.items():\n            for k in range(size):", 'C23.table'),
+    Mutant('table-range-off-by-one', SP, "                for k in range(size):\n", "                for k in range(size - 1):\n", 'C23.table'),
+    Twin('twin-table-size-inline', DG, "            size = _get_size(meta)\n\n            for k in range(size):", "            nel = _get_size(meta)\n\n            for k in range(nel):"),
 )
